@@ -3,7 +3,7 @@ from __future__ import annotations
 
 import z3
 
-from .bexp import B, TRUE, FALSE, AND, OR, NOT, IFF, const, to_z3, atom
+from .bexp import B, TRUE, FALSE, AND, OR, NOT, IFF, const, to_z3, atom, compact
 from .values import (Sym, Union, VObj, VInst, VList, VDict, VSet, VCell, VFunc, VMethod, VBuiltinMethod, VIter,
                      VGen, VSuper, VModel, SlotRef, NULL, UNDEF, Unsupported, merge, mk_union, alts_of, truth,
                      sym_bool, is_concrete)
@@ -21,7 +21,7 @@ def wguard(s, obj, g=TRUE):
     gg = AND(s.guard, g, s.cg)
     if gg is obj.birth:
         return TRUE
-    return gg
+    return compact(gg)
 
 
 def has_sym(k):
@@ -87,16 +87,27 @@ def nth_present(lst: VList, i: int, reverse=False):
             for c_ in range(i + 1):
                 stay = AND(cnt[c_], np_)
                 inc = AND(cnt[c_ - 1], p) if c_ > 0 else FALSE
-                new.append(OR(stay, inc))
+                new.append(compact(OR(stay, inc)))
             cnt = new
     return out
 
 
 def index_conds(vm, s, lst: VList, k):
     if type(k) is SlotRef:
-        if k.lst is not lst:
-            raise Unsupported("slot reference into a different list")
-        return [(lst.slots[k.j][0], k.j)]
+        if k.lst is lst and all(a is b[0] for a, b in zip(k.before, [sl for sl in lst.slots[:k.j] if sl[0] is not FALSE])) \
+                and len(k.before) == sum(1 for sl in lst.slots[:k.j] if sl[0] is not FALSE):
+            return [(lst.slots[k.j][0], k.j)]
+        # the index was produced for another list (or the list changed since): use it as a position
+        out = []
+        mine = []
+        for j, sl in enumerate(lst.slots):
+            if sl[0] is FALSE:
+                continue
+            c = AND(sl[0], count_eq(mine, list(k.before)))
+            if c is not FALSE:
+                out.append((c, j))
+            mine.append(sl[0])
+        return out
     if type(k) is bool or type(k) is not int:
         raise Unsupported(f"list index {k!r}")
     if k >= 0:
@@ -104,9 +115,41 @@ def index_conds(vm, s, lst: VList, k):
     return nth_present(lst, -k - 1, reverse=True)
 
 
+def count_eq(ga, gb) -> B:
+    """the number of true guards in ga equals the number of true guards in gb"""
+    n = max(len(ga), len(gb))
+
+    def dist(gs):
+        d = [TRUE] + [FALSE] * n
+        for p in gs:
+            p = compact(p)
+            nd = []
+            for c in range(n + 1):
+                stay = AND(d[c], NOT(p))
+                inc = AND(d[c - 1], p) if c > 0 else FALSE
+                nd.append(compact(OR(stay, inc)))
+            d = nd
+        return d
+    da, db = dist(ga), dist(gb)
+    return OR(*[AND(da[c], db[c]) for c in range(n + 1)])
+
+
 class LenSym(Sym):
-    """symbolic length that remembers the presence guards (comparisons keep Boolean structure)"""
-    __slots__ = ("guards",)
+    """symbolic length that remembers the presence guards (comparisons keep Boolean structure);
+    the arithmetic term is only built when something really needs it"""
+    __slots__ = ("guards", "_lazy")
+
+    def __init__(self, n_true, rest):
+        self.sort = "int"
+        self.guards = (n_true, tuple(rest))
+        self._lazy = None
+
+    @property
+    def e(self):
+        if self._lazy is None:
+            n_true, rest = self.guards
+            self._lazy = z3.Sum([z3.If(to_z3(p), 1, 0) for p in rest]) + n_true
+        return self._lazy
 
 
 def length(vm, s, c):
@@ -135,10 +178,7 @@ def length(vm, s, c):
     rest = [p for p in gs if p is not TRUE]
     if not rest:
         return n_true
-    e = z3.Sum([z3.If(to_z3(p), 1, 0) for p in rest]) + n_true
-    r = LenSym("int", e)
-    r.guards = (n_true, tuple(rest))
-    return r
+    return LenSym(n_true, rest)
 
 
 def len_compare(opname, ls: LenSym, k: int):
@@ -329,7 +369,7 @@ def setitem(vm, s, c, k, v, g):
                 c.slots[kk] = [gg, v]
             else:
                 slot[1] = merge(gg, v, slot[1]) if slot[0] is not FALSE else v
-                slot[0] = OR(slot[0], gg)
+                slot[0] = compact(OR(slot[0], gg))
         return
     if t is VList:
         for cd, j in index_conds(vm, s, c, k):
@@ -360,7 +400,7 @@ def delitem(vm, s, c, k, g):
         if miss is not FALSE:
             vm.raise_under(s, miss, KeyError(k))
         gg = wguard(s, c, g)
-        slot[0] = AND(slot[0], NOT(gg))
+        slot[0] = compact(AND(slot[0], NOT(gg)))
         return
     if t is VList:
         conds = index_conds(vm, s, c, k)
@@ -371,7 +411,7 @@ def delitem(vm, s, c, k, g):
             gg = wguard(s, c, AND(g, cd))
             if gg is FALSE:
                 continue
-            c.slots[j][0] = AND(c.slots[j][0], NOT(gg))
+            c.slots[j][0] = compact(AND(c.slots[j][0], NOT(gg)))
         return
     raise Unsupported(f"del item on {c!r}")
 
@@ -509,7 +549,7 @@ def set_add(vm, s, st, x, g):
         if has_sym(k):
             raise Unsupported("set element with symbolic scalar")
         try:
-            st.slots[k] = OR(st.slots.get(k, FALSE), gg)
+            st.slots[k] = compact(OR(st.slots.get(k, FALSE), gg))
         except TypeError as e:
             raise _vmraise(e)
 
@@ -730,7 +770,7 @@ def _pop_at(vm, s, lst, conds):
         gg = wguard(s, lst, cd)
         if gg is FALSE:
             continue
-        lst.slots[j][0] = AND(lst.slots[j][0], NOT(gg))
+        lst.slots[j][0] = compact(AND(lst.slots[j][0], NOT(gg)))
     return val
 
 
@@ -762,7 +802,7 @@ def _list_method(vm, s, lst, name, args, kwargs):
         raise Unsupported("list.insert at non-zero index")
     if name == "clear":
         for sl in lst.slots:
-            sl[0] = AND(sl[0], NOT(g))
+            sl[0] = compact(AND(sl[0], NOT(g)))
         if g is TRUE:
             lst.slots = []
         return None
@@ -776,7 +816,7 @@ def _list_method(vm, s, lst, name, args, kwargs):
             if m is FALSE:
                 continue
             remaining = AND(remaining, NOT(m))
-            sl[0] = AND(sl[0], NOT(wguard(s, lst, m)))
+            sl[0] = compact(AND(sl[0], NOT(wguard(s, lst, m))))
         if remaining is not FALSE:
             vm.raise_under(s, remaining, ValueError("list.remove(x): x not in list"))
         return None
@@ -817,9 +857,7 @@ def _list_method(vm, s, lst, name, args, kwargs):
             return len(conds)
         n_true = sum(1 for c in conds if c is TRUE)
         rest = [c for c in conds if c is not TRUE]
-        r = LenSym("int", z3.Sum([z3.If(to_z3(c), 1, 0) for c in rest]) + n_true)
-        r.guards = (n_true, tuple(rest))
-        return r
+        return LenSym(n_true, rest)
     if name == "__len__":
         return length(vm, s, lst)
     if name == "sort" or name == "reverse":
@@ -872,7 +910,7 @@ def _dict_method(vm, s, d, name, args, kwargs):
                     vm.raise_under(s, miss, KeyError(kk))
             if slot is not None and AND(gk, p) is not FALSE:
                 res.append((AND(gk, p), slot[1]))
-                slot[0] = AND(slot[0], NOT(wguard(s, d, gk)))
+                slot[0] = compact(AND(slot[0], NOT(wguard(s, d, gk))))
         return mk_union(res)
     if name in ("keys", "__iter__"):
         return copy_list(vm, s, d)
@@ -891,7 +929,7 @@ def _dict_method(vm, s, d, name, args, kwargs):
         return r
     if name == "clear":
         for sl in d.slots.values():
-            sl[0] = AND(sl[0], NOT(g))
+            sl[0] = compact(AND(sl[0], NOT(g)))
         d.assoc = [(AND(ga, NOT(g)), k, v) for ga, k, v in d.assoc]
         if g is TRUE:
             d.slots = {}
